@@ -207,8 +207,36 @@ def main():
     if old != text:
         open(OUT, "w").write(text)
     print("gen_src: %d constants, %d functions" % (len(c1 + c2), len(f1)))
+    global TRANSLATED
+    TRANSLATED = [name for name, _ in c1 + c2] + [f[0] for f in f1]
     return 0
 
 
+TRANSLATED = []
+TIE = os.path.join(os.path.dirname(os.path.dirname(OUT)), "proofs", "SrcTie.v")
+WANTED = ["PROTON", "mass_charge_ratio", "neutral_mass", "NEUTRON_SHIFT", "LAMBDA_FACTOR"]
+
+
+def cli():
+    """python3 tools/gen_src.py [--ties [--field] [--only=a,b]]: regenerate SrcGen.v; with --ties compile
+    coq/proofs/SrcTie.v block by block, in strict mode or (--field) in field mode (tools/tie_modes.py), and print
+    `tie <name>: OK | FAILED (..) | SKIPPED (..)` for PROTON, mass_charge_ratio, neutral_mass, NEUTRON_SHIFT,
+    LAMBDA_FACTOR"""
+    rc = main()
+    if rc != 0:
+        return rc
+    sys.path.insert(0, os.path.dirname(os.path.abspath(__file__)))
+    import tie_modes
+    ties, field, only = tie_modes.flags(sys.argv[1:])
+    if not ties:
+        return 0
+    coq = os.path.dirname(os.path.dirname(OUT))
+    if not tie_modes.compile_deps(coq, ["model/TieTac.v", "gen/SrcGen.v"]):
+        return 1
+    skipped = {n: "not in the translated source" for n in WANTED if n not in TRANSLATED}
+    bad = tie_modes.check_blocks(coq, TIE, WANTED, skipped, field=field, only=only, stem="SrcTie")
+    return 1 if bad else 0
+
+
 if __name__ == "__main__":
-    sys.exit(main())
+    sys.exit(cli())
